@@ -280,7 +280,9 @@ def run_case(case):
             elif fam == "skeleton-fixture":
                 from forsys import skeleton
                 sk = skeleton.Skeleton(os.path.join(FIX, case["file"]), mirror_y=bool(rng.integers(2)))
-                v, e, c = sk.create_lattice()
+                ra_ = case["seed"][2] % 4 == 1
+                hist["reduce-amount-option"] = int(ra_)
+                v, e, c = sk.create_lattice(reduce_amount=True) if ra_ else sk.create_lattice()
                 ops, sched, nc, nv = _sequence(rng, v, e, c, mon, hist, case["file"])
                 sigs.append(["skeleton-fixture", case["file"], nv, str(ops), sched])
             elif fam == "raster":
@@ -299,7 +301,9 @@ def run_case(case):
                 path = os.path.join(tmpdir, "t.tif")
                 raster.save(img, path)
                 sk = skeleton.Skeleton(path, mirror_y=bool(rng.integers(2)))
-                v, e, c = sk.create_lattice()
+                ra_ = case["seed"][2] % 4 == 1
+                hist["reduce-amount-option"] = int(ra_)
+                v, e, c = sk.create_lattice(reduce_amount=True) if ra_ else sk.create_lattice()
                 ops, sched, nc, nv = _sequence(rng, v, e, c, mon, hist, "raster")
                 sigs.append(["raster", "raw" if case["raw"] else "clean", len(c), nv, str(ops), sched])
             elif fam == "wkt":
